@@ -130,6 +130,7 @@ func linkCorr(c *Ctx) {
 		if t, ok := linkCaseTerm(src); ok {
 			cases = append(cases, t)
 			c.Res.CaseInputs = appendCase(c.Res.CaseInputs, "mismatch_link", src)
+			c.Res.CaseInputs = appendCase(c.Res.CaseInputs, "mismatch_seg", src)
 			c.Res.Traces++
 		}
 	}
@@ -142,6 +143,7 @@ func linkCorr(c *Ctx) {
 	c.caseSB.WriteString(coqCaseHeader + "From DV Require Import Model.Link Model.LinkCases.\n")
 	c.caseSB.WriteString("Definition lcases : list lcase := [\n" + strings.Join(cases, ";\n") + "].\n")
 	c.caseSB.WriteString("Definition mismatch_link := Eval vm_compute in bad_lcases lcases.\nPrint mismatch_link.\n")
+	c.caseSB.WriteString("Definition mismatch_seg := Eval vm_compute in bad_seg lcases.\nPrint mismatch_seg.\n")
 }
 
 func init() { corrs["LINK"] = linkCorr }
